@@ -442,6 +442,7 @@ func (interp *Interpreter) ast(f ast.Node) (string, *node, error) {
 	if file, ok := f.(*ast.File); ok {
 		splitVarSpecs(file)
 	}
+	expandConstSpecs(f)
 
 	addChild := func(root **node, anc astNode, pos token.Pos, kind nkind, act action) *node {
 		var i interface{}
@@ -774,21 +775,6 @@ func (interp *Interpreter) ast(f ast.Node) (string, *node, error) {
 			n := addChild(&root, anc, pos, identExpr, aNop)
 			n.ident = a.Name
 			st.push(n, nod)
-			if n.anc.kind == defineStmt && n.anc.anc.kind == constDecl && n.anc.nright == 0 {
-				// Implicit assign expression (in a ConstDecl block).
-				// Clone assign source and type from previous
-				a := n.anc
-				pa := a.anc.child[childPos(a)-1]
-
-				if len(pa.child) > pa.nleft+pa.nright {
-					// duplicate previous type spec
-					a.child = append(a.child, interp.dup(pa.child[a.nleft], a))
-				}
-
-				// duplicate previous assign right hand side
-				a.child = append(a.child, interp.dup(pa.lastChild(), a))
-				a.nright++
-			}
 
 		case *ast.IfStmt:
 			// Disambiguate variants of IF statements with a node kind per variant
@@ -1005,6 +991,30 @@ func splitVarSpecs(file *ast.File) {
 	}
 }
 
+// expandConstSpecs rewrites every constant specification without expression
+// list of a parenthesized const declaration into its explicit form: the type and
+// the expression list of the preceding specification with expressions are repeated.
+func expandConstSpecs(root ast.Node) {
+	ast.Inspect(root, func(n ast.Node) bool {
+		gd, ok := n.(*ast.GenDecl)
+		if !ok || gd.Tok != token.CONST {
+			return true
+		}
+		var prev *ast.ValueSpec
+		for _, s := range gd.Specs {
+			vs, ok := s.(*ast.ValueSpec)
+			switch {
+			case !ok:
+			case len(vs.Values) > 0:
+				prev = vs
+			case vs.Type == nil && prev != nil:
+				vs.Type, vs.Values = prev.Type, prev.Values
+			}
+		}
+		return false
+	})
+}
+
 type astNode struct {
 	node *node
 	ast  ast.Node
@@ -1029,19 +1039,4 @@ func (s *nodestack) top() astNode {
 		return (*s)[l-1]
 	}
 	return astNode{}
-}
-
-// dup returns a duplicated node subtree.
-func (interp *Interpreter) dup(nod, anc *node) *node {
-	nindex := atomic.AddInt64(&interp.nindex, 1)
-	n := *nod
-	n.index = nindex
-	n.anc = anc
-	n.start = &n
-	n.pos = anc.pos
-	n.child = nil
-	for _, c := range nod.child {
-		n.child = append(n.child, interp.dup(c, &n))
-	}
-	return &n
 }
